@@ -50,7 +50,11 @@ func c05Instantiate(t string, l *model.Log, start uint64, rng *rand.Rand, tag st
 	case "A3":
 		return gen.Op{Kind: "append", Logs: []*raft.Log{mk(next, 10+rng.Intn(10)), mk(next+1, rng.Intn(9)), mk(next+2, 16+rng.Intn(16))}}
 	case "Abig":
-		return gen.Op{Kind: "append", Logs: []*raft.Log{mk(next, seg+rng.Intn(40)), mk(next+1, 5)}}
+		sz := seg + rng.Intn(40)
+		if rng.Intn(6) == 0 {
+			sz = 65400 + rng.Intn(3000) // around and above the 64 KiB pooled read buffer
+		}
+		return gen.Op{Kind: "append", Logs: []*raft.Log{mk(next, sz), mk(next+1, 5)}}
 	case "Agap":
 		return gen.Op{Kind: "append", Logs: []*raft.Log{mk(next+1+uint64(rng.Intn(3)), 12)}}
 	case "Arepeat":
@@ -298,7 +302,7 @@ func shapeOf(l *model.Log) string {
 }
 
 func runC05(c *evid.Ctx) {
-	c.Rule("operation sequences over an 18-template alphabet (appends: 1, 3, larger than a segment, gap, repeat, lower, internally non-consecutive, empty; deletes: prefix, suffix, all, strict middle, disjoint, inverted; reopen), exhaustive to a depth bound for each (segment size, start index) geometry and seeded random beyond; after EVERY step the full observable state (First, Last, GetLog of [first-2,last+2] + {0,1,max} + every index ever written) is compared with the model, in the live WAL and in a reopened copy of the directory; a third of the sequences run in pending-rotation mode (the background rotation is held queued so that the next call, or Close, always gets the write lock first, and the directory copy is reopened twice); non-trivial = distinct (model-state shape, template) pairs exercised",
+	c.Rule("operation sequences over an 18-template alphabet (appends: 1, 3, larger than a segment - one in six of those around or above the 64 KiB pooled read buffer -, gap, repeat, lower, internally non-consecutive, empty; deletes: prefix, suffix, all, strict middle, disjoint, inverted; reopen), exhaustive to a depth bound for each (segment size, start index) geometry and seeded random beyond; after EVERY step the full observable state (First, Last, GetLog of [first-2,last+2] + {0,1,max} + every index ever written) is compared with the model, in the live WAL and in a reopened copy of the directory; a third of the sequences run in pending-rotation mode (the background rotation is held queued so that the next call, or Close, always gets the write lock first, and the directory copy is reopened twice); non-trivial = distinct (model-state shape, template) pairs exercised",
 		"steps", "state_op_pairs")
 	c.Assume("index 0 is never used as a raft index (LastIndex()==0 means empty)", "simfs.Strict behaviour (this check does not crash anything)")
 	depth := 3
